@@ -171,6 +171,8 @@ def check(case, ctx):
         extra_inputs = {n for n in extra if after.types[n] == "input"}
         if extra - extra_inputs:
             ctx.violation("insert_registers_extra_nodes", f"{what}: unexpected added nodes {sorted(extra - extra_inputs)}")
+        if extra_inputs - {"clk"}:
+            ctx.violation("insert_registers_extra_inputs", f"{what}: primary inputs {sorted(extra_inputs - {'clk'})} appeared (only the flop clock `clk` may be added)")
         if after.inputs() - extra_inputs != before.inputs() or after.outputs != before.outputs:
             ctx.violation("insert_registers_io", f"{what}: io changed")
         transparent = Net(types, preds, after.outputs)
